@@ -597,7 +597,7 @@ mod x86_64 {
         /// to 0, the corresponding rFLAGS bit is not modified.
         #[inline]
         pub fn read() -> RFlags {
-            RFlags::from_bits(unsafe { Self::MSR.read() }).unwrap()
+            RFlags::from_bits_truncate(unsafe { Self::MSR.read() })
         }
 
         /// Write to the SFMask register.
